@@ -94,6 +94,7 @@ func main() {
 		total += genQueueRing(out, rng, "battle", cnt(60, 1500))
 	case "bigstep":
 		total += genBigStep(out, rng, cnt(15, 300))
+		total += genBigMul(out, rng, cnt(120, 6000))
 	case "rot":
 		total += genRot(out, rng, cnt(800, 20000))
 		total += genRotHuge(out, rng, cnt(60, 2000))
